@@ -55,32 +55,18 @@ static bool ref_texts_equal(const QString &a, const QString &b)
 
 extern "C" void h_dup_seq()
 {
+    // any sequence of VF_N texts of <= VF_SLEN arbitrary UTF-16 units (null and empty included) through one filter:
+    // the filter's state is only ever established through its own API
     DuplicateFilter f;
     QString prev = QStringLiteral("");
-    static const unsigned short menu[] = { 'a', 'A', ' ', 'b', 0x00e9, 0x0301 };
     for (int i = 0; i < VF_N; ++i) {
-        QString text = vf_nondet_bool() ? QString() : vf_string_menu(VF_SLEN, menu, 6);
+        QString text = vf_string(VF_SLEN, true, 0x0001, 0xffff);
         LogMessage msg((QtMsgType)vf_range(0, 4), g_ctx, text);
         bool pass = f.filter(msg);
         bool expect = !ref_texts_equal(text, prev);
         vf_assert(pass == expect, "duplicate filter drops iff text equals previous text");
         prev = text;
     }
-    vf_witness();
-}
-
-// one step from an arbitrary filter state (inductive step: covers sequences of any length)
-extern "C" void h_dup_step()
-{
-    DuplicateFilter f;
-    QString last = vf_string(VF_SLEN, true, 0x20, 0xffff);
-    f.m_lastMessage = last;
-    QString text = vf_string(VF_SLEN, true, 0x20, 0xffff);
-    LogMessage msg(QtDebugMsg, g_ctx, text);
-    bool pass = f.filter(msg);
-    vf_assert(pass == !ref_texts_equal(text, last), "duplicate filter step: verdict");
-    // state afterwards = text of the message just seen (equal to 'last' when dropped)
-    vf_assert(ref_texts_equal(f.m_lastMessage, text), "duplicate filter step: remembers the text just seen");
     vf_witness();
 }
 
